@@ -534,44 +534,52 @@ def _last_owner_edges(F, b):
 
 def rule_use_after_release(ctx, rep, rule="R-USE-AFTER-RELEASE"):
     """Once a body has given its count back (a direct decrement) and was not the last owner, it must not touch the block again:
-    the count no longer covers it, so another owner may already be judged unique (and be writing) or have freed the block."""
+    the count no longer covers it, so another owner may already be judged unique (and be writing) or have freed the block.
+    Judged on release units (private helpers inlined) and, for decrements outside any tested unit, on the decrementing body."""
     n = 0
     for tag, F, E in ctx.each():
-        A = analysis(tag, F, E)
-        for b in F.body_list:
+        for b, unit, paths in release_units(F, E):
             key = b["key"]
-            if key in A.errors:
-                continue
-            site = False
-            bad = None
-            last_edges = _last_owner_edges(F, b)
-            for p in A.paths.get(key, []):
-                ev = p.events
-                i_dec = next((i for i, e in enumerate(ev) if e["kind"] == "DEC"), None)
-                if i_dec is None:
-                    continue
-                site = True
-                blocks = list(p.blocks)
-                if last_edges is not None:
-                    last = any((blocks[i], blocks[i + 1]) in last_edges for i in range(len(blocks) - 1))
-                else:
-                    last = any(vget(e["vec"], "free_s1") or vget(e["vec"], "free_raw") for e in ev[i_dec + 1 :])
-                if last:
-                    continue  # last owner: R-ORD-2/R-ORD-6/R-DESTROY govern this branch
-                for e in ev[i_dec + 1 :]:
-                    if e["kind"] in ("DATAREF", "UCLONE", "USER", "LOAD", "INC", "DEC", "PCALL") or (e["kind"] == "CALL" and e["detail"].get("outcome") is None):
-                        if bad is None:
-                            bad = (p, e)
-                        break
-            if not site:
-                continue
             n += 1
+            bad = None
+            sides = gate_sides(F, unit, paths)
+            for d in sides:
+                if d["problem"] == "no-test":
+                    cands = [p for p in paths if d["bb"] in p.blocks and not path_frees(p)]
+                elif d["problem"]:
+                    continue
+                else:
+                    cands = d["paths_other"]
+                for p in cands:
+                    ev = p.events
+                    i_dec = next((i for i, e in enumerate(ev) if e["kind"] == "DEC"), None)
+                    if i_dec is None:
+                        continue
+                    for e in ev[i_dec + 1 :]:
+                        if e["kind"] in ("DATAREF", "UCLONE", "USER", "LOAD", "INC", "DEC", "PCALL") or (e["kind"] == "CALL" and e["detail"].get("outcome") is None and e["vec"] != ZERO) or (e["kind"] == "CALL" and e["detail"].get("outcome") is None and _touches_block(F, E, e)):
+                            if bad is None:
+                                bad = (p, e)
+                            break
             if bad:
                 p, e = bad
-                rep.bad(rule, key, path_report(F, b, p, "after giving its count back (and not being the last owner) the function still uses the block (%s at line %s): the count no longer covers this owner, so another handle can be found unique - and be granted `&mut`, or free the value - while it is still in use" % (e["kind"], e["span"]["line"])), F.loc(b, e["span"]), tag)
+                rep.bad(rule, key, path_report(F, unit, p, "after giving its count back (and not being the last owner) the function still uses the block (%s at line %s): the count no longer covers this owner, so another handle can be found unique - and be granted `&mut`, or free the value - while it is still in use" % (e["kind"], e["span"]["line"])), F.loc(unit, e["span"]), tag)
             else:
                 rep.ok(rule, key, cfg=tag)
     return n
+
+
+def _touches_block(F, E, e):
+    """A count-neutral local call after the release that still reads the block (payload reference, count load, user code)."""
+    ck = e["detail"].get("callee")
+    if not ck or F.body(ck) is None:
+        return False
+    try:
+        for q in E.walk(F.body(ck), record=True):
+            if any(x["kind"] in ("DATAREF", "UCLONE", "USER", "LOAD", "PCALL") for x in q.events):
+                return True
+    except Exception:
+        return True
+    return False
 
 
 def guard_writes_back(F, A, adt_path):
@@ -615,12 +623,12 @@ def count_sites(F):
     return out
 
 
-def free_sites(F):
+def free_sites(F, bodies=None):
     """Bodies that directly free an INNER block: drop terminator of Box<INNER<..>>, Box::drop on it, dealloc."""
     from . import model
 
     out = []
-    for b in F.body_list:
+    for b in (F.body_list if bodies is None else bodies):
         for bi, bl in enumerate(b["blocks"]):
             t = bl["term"]
             if t["k"] == "drop":
@@ -654,6 +662,87 @@ def free_sites(F):
     return out
 
 
+def release_units(F, E):
+    """The units in which a release is judged: for every body with a direct decrement of the count word, that body - or the caller
+    it reports its verdict to - with private helpers virtually inlined, so that the decrement, the test of its result, the acquire
+    and the free are seen together however the drop path is split into functions (`release_ref() -> bool` + `drop_slow()`).
+    Returns [(body with the decrement, unit body (synthetic), recorded paths of the unit)]."""
+    from . import inline
+
+    cache = F.__dict__.get("_release_units")
+    if cache is not None:
+        return cache
+    out = []
+    for b in F.body_list:
+        if b["kind"] not in ("Fn", "AssocFn") or not dec_gate(F, b):
+            continue
+        cand = b
+        unit = None
+        for _ in range(3):
+            ib = inline.inlined(F, cand["key"])
+            if any(bb is ib or bb["key"] == ib["key"] for (bb, _bi, _t, _w) in free_sites(F, [ib])):
+                unit = ib
+                break
+            callers = [c for c in F.body_list if c["kind"] in ("Fn", "AssocFn") and c["key"] != cand["key"] and any(bl["term"]["k"] == "call" and _callee_key(bl["term"]) == cand["key"] for bl in c["blocks"])]
+            if len(callers) != 1:
+                break
+            cand = callers[0]
+        if unit is None:
+            unit = inline.inlined(F, b["key"])
+        try:
+            paths = E.walk(unit, record=True)
+        except Exception:
+            paths = []
+        out.append((b, unit, paths))
+    F.__dict__["_release_units"] = out
+    return out
+
+
+def gate_sides(F, unit, paths):
+    """For each direct decrement in a release unit: how its result is tested and, per recorded path through it, on which side of the
+    test the path continues. Yields dicts {term, found, B, k, op, paths_one, paths_other, problem}; feasibility comes from the path
+    enumeration (which follows constant verdicts such as `return false` through the caller's `if`), not from CFG reachability."""
+    out = []
+    for bi, t, found, B in dec_gate(F, unit):
+        d = {"bb": bi, "term": t, "found": found, "B": B, "paths_one": [], "paths_other": [], "problem": None}
+        if found is None:
+            d["problem"] = "no-test"
+            out.append(d)
+            continue
+        sj, tt, c, k = found
+        d["k"], d["op"], d["switch"] = k, c["op"], tt
+        if k != 1 or c["op"] not in ("Eq", "Ne"):
+            d["problem"] = "not-eq-1"
+            out.append(d)
+            continue
+        truth = B.switch_truth(tt)
+        one = set(tgt for tgt, tv in truth.items() if ((tv != c["neg"]) if c["op"] == "Eq" else not (tv != c["neg"])))
+        for p in paths:
+            blocks = list(p.blocks)
+            if bi not in blocks:
+                continue
+            side = None
+            for i in range(len(blocks) - 1):
+                if blocks[i] == sj:
+                    side = "one" if blocks[i + 1] in one else "other"
+                    break
+            if side == "one":
+                d["paths_one"].append(p)
+            elif side == "other":
+                d["paths_other"].append(p)
+        out.append(d)
+    return out
+
+
+def path_frees(p):
+    return vget(p.vec, "free_s1") + vget(p.vec, "free_raw")
+
+
+def _callee_key(t):
+    r = t.get("resolved")
+    return r["def"] if isinstance(r, dict) else t.get("callee")
+
+
 def dec_gate(F, b):
     """In a body with a direct decrement: is every block that reaches a free dominated by the edge `old == 1`?
 
@@ -676,6 +765,10 @@ def dec_gate(F, b):
             if tt["k"] != "switch":
                 continue
             c = B.condition(tt["discr"])
+            if c and "call" in c and c["call"] is t and not c["neg"] and [v for v, _tg in tt["arms"]] == [1]:
+                # `match count.fetch_sub(1, Release) { 1 => .., _ => .. }`: the switch is on the old value itself
+                found = (sj, tt, {"op": "Eq", "neg": False, "a": tt["discr"], "b": tt["discr"]}, 1)
+                break
             if not c or "op" not in c:
                 continue
             la, lb = operand_local(c["a"]), operand_local(c["b"])
